@@ -784,7 +784,7 @@ def oracle(ctx):
              "steps": ctx.subrng("olen", i).randrange(8, 15) if ctx.tier == "quick" else ctx.subrng("olen", i).randrange(10, 41)}
             for i in range(nh)]
     results = []
-    chunk = 48
+    chunk = 32
     # the oracle may use half of what the build has left, but always gets a minimum share: a slow build
     # (loaded machine, regenerated constants) must not turn the check into a no-op
     import time
@@ -823,7 +823,7 @@ def correspond(ctx):
     jobs = [{"dir": os.path.join(ctx.tmp, "c%d" % i), "key": "%s-%d-corr-%d" % (ctx.prop, ctx.seed, i), "mode": "corr",
              "steps": ctx.subrng("clen", i).randrange(8, 15) if ctx.tier == "quick" else ctx.subrng("clen", i).randrange(10, 41)}
             for i in range(nh)]
-    chunk = 64
+    chunk = 32
     import time
     t_stop = time.time() + max(ctx.time_left() - 15, ctx.scale(30, 300))
     for a in range(0, len(jobs), chunk):
